@@ -28,25 +28,16 @@ class Unsupported(Exception):
     pass
 
 
-def build(t, raw_int_ok=True):
-    """tree -> claripy AST through the public API (operators on BV objects, claripy.* functions)."""
-    k = t[0]
-    if k == "bvv":
-        return claripy.BVV(t[1], t[2])
-    if k == "bvs":
-        return claripy.BVS(t[1], t[2], explicit_name=True)
-    if k == "boolv":
-        return claripy.BoolV(bool(t[1]))
-    if k == "bools":
-        return claripy.BoolS(t[1], explicit_name=True)
-    if k == "int":  # a raw Python int operand (reversed operators / coercion); only valid as an argument
-        return t[1]
-    args = [build(a) for a in t[1:]]
+def apply_op(k, args):
+    """apply written operator `k` to already-built arguments (claripy ASTs or raw Python ints)"""
     if k in BIN_INFIX:
         r = args[0]
         for a in args[1:]:
-            if isinstance(r, int):
-                # reversed operator: int <op> BV
+            if isinstance(r, int) and not isinstance(a, int):
+                # reversed operator: int <op> BV  (Python swaps the operands itself for == and !=)
+                if k in ("eq", "ne"):
+                    r = getattr(a, BIN_INFIX[k])(r)
+                    continue
                 r = getattr(a, "__r" + BIN_INFIX[k][2:])(r)
                 if r is NotImplemented:
                     raise Unsupported("reversed op not implemented")
@@ -82,6 +73,42 @@ def build(t, raw_int_ok=True):
     if k == "Not":
         return claripy.Not(args[0])
     raise Unsupported(k)
+
+
+def build_leaf(t):
+    k = t[0]
+    if k == "bvv":
+        return claripy.BVV(t[1], t[2])
+    if k == "bvs":
+        return claripy.BVS(t[1], t[2], explicit_name=True)
+    if k == "boolv":
+        return claripy.BoolV(bool(t[1]))
+    if k == "bools":
+        return claripy.BoolS(t[1], explicit_name=True)
+    if k == "int":  # a raw Python int operand (reversed operators / coercion); only valid as an argument
+        return t[1]
+    return None
+
+
+def build(t, log=None, memo=None):
+    """tree -> claripy AST through the public API (operators on BV objects, claripy.* functions).
+    `log` (list) receives one (op, built_args, result) triple per node, bottom-up.
+    `memo` maps s-expression strings of sub-trees to existing AST objects (reused instead of rebuilt)."""
+    if memo is not None and t[0] != "int":
+        try:
+            hit = memo.get(sexpr(t))
+        except Unsupported:
+            hit = None
+        if hit is not None:
+            return hit
+    r = build_leaf(t)
+    if r is not None or t[0] == "int":
+        return r
+    args = [build(a, log, memo) for a in t[1:]]
+    r = apply_op(t[0], args)
+    if log is not None:
+        log.append((t[0], args, r))
+    return r
 
 
 def from_ast(a):
